@@ -14,10 +14,10 @@ NCPU = int(os.environ.get('VERIF_JOBS', str(os.cpu_count() or 4)))
 IR2C = os.path.join(VERIF, 'ir2c', 'ir2c')
 RT = os.path.join(VERIF, 'rt')
 
-CLANG_FLAGS = ['-std=gnu++11', '-DMUSCLE_ENABLE_ZLIB_ENCODING', '-DMUSCLE_NO_EXCEPTIONS', '-I' + REPO, '-I' + RT,
+CLANG_FLAGS = ['-std=gnu++11', '-DMUSCLE_ENABLE_ZLIB_ENCODING', '-DMUSCLE_NO_EXCEPTIONS', '-DNDEBUG', '-I' + REPO, '-I' + RT,
                '-O1', '-fno-vectorize', '-fno-slp-vectorize', '-fno-unroll-loops', '-fno-exceptions', '-fno-builtin',
-               '-fno-access-control', '-Xclang', '-no-opaque-pointers', '-Wno-everything', '-S', '-emit-llvm']
-GXX_FLAGS = ['-std=gnu++11', '-DMUSCLE_ENABLE_ZLIB_ENCODING', '-DMUSCLE_NO_EXCEPTIONS', '-I' + REPO, '-I' + RT,
+               '-fno-access-control', '-Wno-everything', '-S', '-emit-llvm']
+GXX_FLAGS = ['-std=gnu++11', '-DMUSCLE_ENABLE_ZLIB_ENCODING', '-DMUSCLE_NO_EXCEPTIONS', '-DNDEBUG', '-I' + REPO, '-I' + RT,
              '-O1', '-fno-access-control', '-fpermissive', '-w']
 
 
@@ -27,7 +27,7 @@ class Job:
     def __init__(self, name, engine, harness, entry, srcs=(), cdefs=None, unwind=None, unwindset=None, mode='func',
                  timeout=None, stubs=(), models=('models/base.def',), preludes=('prelude_base.h',), extra_cbmc=(),
                  unwind_is_property=False, object_bits=None, desc=None, ir2c_flags=(), pdefs=None, extra_clang=(),
-                 native_srcs=None, family=None, maxalloc=None, native_defs=None, solver=None, slice_formula=False):
+                 native_srcs=None, family=None, maxalloc=None, native_defs=None, solver=None, slice_formula=False, force_include=(), gen_c=None, fs_array=256):
         self.name = name; self.engine = engine; self.harness = harness; self.entry = entry
         self.srcs = list(srcs); self.cdefs = dict(cdefs or {}); self.pdefs = dict(pdefs or {})
         self.unwind = unwind; self.unwindset = dict(unwindset or {}); self.mode = mode; self.timeout = timeout
@@ -36,12 +36,12 @@ class Job:
         self.object_bits = object_bits; self.desc = desc or name; self.ir2c_flags = list(ir2c_flags)
         self.extra_clang = list(extra_clang); self.native_srcs = native_srcs; self.family = family or entry
         self.maxalloc = maxalloc; self.native_defs = dict(native_defs or {}); self.solver = solver
-        self.slice_formula = slice_formula
+        self.slice_formula = slice_formula; self.force_include = list(force_include); self.gen_c = gen_c; self.fs_array = fs_array
         self.result = None
 
     def build_key(self):
         h = hashlib.sha1(json.dumps([self.engine, self.harness, self.srcs, sorted(self.cdefs.items()), self.stubs,
-                                     self.models, self.preludes, self.ir2c_flags, self.extra_clang, self.entry if self.engine == 'B' else '']).encode()).hexdigest()[:12]
+                                     self.models, self.preludes, self.ir2c_flags, self.extra_clang, self.force_include, self.entry if self.engine == 'B' else '']).encode()).hexdigest()[:12]
         return h
 
     def descriptor(self):
@@ -127,11 +127,16 @@ class Runner:
             return b
 
     def build_A(self, job, key):
-        # Engine A: cbmc parses the harness and the shipped C sources directly, with the shipped include path.
+        # Engine A: the harness and the shipped C sources are compiled by goto-cc with the shipped include path (-I/repo)
         d = os.path.join(self.work, 'A_' + key); os.makedirs(d, exist_ok=True)
         srcs = [os.path.join(VERIF, job.harness)] + [os.path.join(REPO, s) for s in job.srcs]
-        return {'dir': d, 'cbmc_inputs': srcs, 'cflags': ['-I' + REPO, '-I' + RT, '-I' + os.path.join(VERIF, 'harness', 'c')] + defs_to_flags(job.cdefs) + list(job.extra_clang),
-                'report': None, 'c': None}
+        gb = os.path.join(d, 'main.gb')
+        cmd = ['goto-cc', '-D__CPROVER__', '-I' + REPO, '-I' + RT, '-I' + os.path.join(VERIF, 'harness', 'c')] + defs_to_flags(job.cdefs) + list(job.extra_clang)
+        for inc in job.force_include: cmd += ['-include', os.path.join(VERIF, inc)]
+        cmd += srcs + ['-o', gb]
+        rc, out, err, to, _ = sh(cmd, timeout=300)
+        if rc != 0 or not os.path.exists(gb): raise BuildError('goto-cc failed:\n' + (err + out)[-3000:])
+        return {'dir': d, 'cbmc_inputs': [gb], 'cflags': ['-I' + RT], 'report': None, 'c': None}
 
     def build_B(self, job, key):
         d = os.path.join(self.work, 'B_' + key); os.makedirs(d, exist_ok=True)
@@ -170,7 +175,8 @@ class Runner:
 
     # ------------------------------------------------------------------ cbmc
     def cbmc_cmd(self, job, b, extra=()):
-        cmd = ['cbmc'] + b['cbmc_inputs'] + b['cflags'] + defs_to_flags(job.pdefs)
+        cmd = ['cbmc'] + b['cbmc_inputs'] + self.gen_c_file(job, b) + b['cflags'] + defs_to_flags(job.pdefs)
+        if job.fs_array: cmd += ['--max-field-sensitivity-array-size', str(job.fs_array)]
         if job.maxalloc is not None: cmd.append('-DIR2C_MAXALLOC=%d' % job.maxalloc)
         cmd += ['--function', job.entry, '--unwinding-assertions', '--drop-unused-functions', '--no-malloc-may-fail', '--json-ui', '--verbosity', '8']
         if job.unwind is not None: cmd += ['--unwind', str(job.unwind)]
@@ -185,8 +191,17 @@ class Runner:
         cmd += list(extra)
         return cmd
 
+    def gen_c_file(self, job, b):
+        if not job.gen_c: return []
+        h = hashlib.sha1(job.gen_c.encode()).hexdigest()[:16]
+        f = os.path.join(b['dir'], 'gen_%s.c' % h)
+        if not os.path.exists(f):
+            tmp = f + '.%d.tmp' % threading.get_ident()
+            open(tmp, 'w').write(job.gen_c); os.replace(tmp, f)
+        return [f]
+
     def select_properties(self, job, b):
-        key = 'props_' + job.build_key() + job.entry + json.dumps(sorted(job.pdefs.items())) + str(job.maxalloc)
+        key = 'props_' + job.build_key() + job.entry + json.dumps(sorted(job.pdefs.items())) + str(job.maxalloc) + hashlib.sha1((job.gen_c or '').encode()).hexdigest()
         with self.build_lock:
             if key in self.builds: return self.builds[key]
         cmd = [c for c in self.cbmc_cmd(job, b) if c not in ('--unwinding-assertions',)] + ['--show-properties']
@@ -287,7 +302,7 @@ class Runner:
             c = self.classify(r)
             if c != 'witness': nprops += 1
             if r.get('status') == 'FAILURE':
-                if c == 'witness': res['witness'] = True
+                if c == 'witness': res['witness'] = True; res['witness_id'] = r['property']
                 elif c == 'ub_pointer': res['ub'].append({'property': r['property'], 'description': r.get('description'), 'loc': self.loc(r)})
                 elif c == 'unwind' and not job.unwind_is_property: res.setdefault('unwind_fail', []).append({'property': r['property'], 'loc': self.loc(r)})
                 elif c == 'nobody': res.setdefault('nobody', []).append(r.get('description'))
@@ -312,7 +327,13 @@ class Runner:
     # ------------------------------------------------------------------ counterexample -> replay vector
     def extract_vector(self, job, prop_id):
         b = self.get_build(job)
-        cmd = self.cbmc_cmd(job, b, extra=['--property', prop_id, '--trace'])
+        if '.unwind.' in prop_id or '.recursion' in prop_id:
+            # unwinding assertions are created during symbolic execution and cannot be selected with --property; select only the
+            # witness assertion (which drops every other instrumented property) and read the unwinding assertion's trace
+            wid = job.result.get('witness_id') if job.result else None
+            cmd = self.cbmc_cmd(job, b, extra=(['--property', wid] if wid else []) + ['--trace'])
+        else:
+            cmd = self.cbmc_cmd(job, b, extra=['--property', prop_id, '--trace'])
         timeout = (job.timeout or (150 if self.tier == 'quick' else 900)) * 2
         rc, out, err, to, wall = sh(cmd, cwd=b['dir'], timeout=timeout, mem_gb=24)
         if to: return None
@@ -337,7 +358,7 @@ class Runner:
     # ------------------------------------------------------------------ native builds (replay + differential)
     def native_build(self, job, sanitize=True, tag='nat'):
         """compile the same harness source natively against the real code"""
-        key = job.build_key() + '_' + tag + ('_san' if sanitize else '')
+        key = job.build_key() + '_' + tag + ('_san' if sanitize else '') + hashlib.sha1((job.gen_c or '').encode()).hexdigest()[:10]
         with self.build_lock:
             if key not in self.build_locks: self.build_locks[key] = threading.Lock()
             lk = self.build_locks[key]
@@ -348,16 +369,21 @@ class Runner:
             san = ['-fsanitize=address,undefined', '-fno-sanitize-recover=undefined', '-fno-omit-frame-pointer', '-g'] if sanitize else []
             defs = defs_to_flags(job.cdefs) + defs_to_flags(job.pdefs) + defs_to_flags(job.native_defs) + ['-DVERIF_NATIVE', '-DHARNESS=' + job.entry]
             nsrcs = job.native_srcs if job.native_srcs is not None else job.srcs
+            genfiles = []
+            if job.gen_c:
+                gf = os.path.join(d, 'gen_layout.c'); open(gf, 'w').write(job.gen_c); genfiles = [gf]
             if job.engine == 'A':
-                cmd = ['gcc', '-O1', '-w', '-I' + REPO, '-I' + RT, '-I' + os.path.join(VERIF, 'harness', 'c')] + san + defs + job.extra_clang + \
-                      [os.path.join(VERIF, job.harness)] + [os.path.join(REPO, s) for s in nsrcs] + [os.path.join(RT, 'native_rt.c'), '-o', exe, '-lm']
+                finc = []
+                for inc in job.force_include: finc += ['-include', os.path.join(VERIF, inc)]
+                cmd = ['gcc', '-O1', '-w', '-I' + REPO, '-I' + RT, '-I' + os.path.join(VERIF, 'harness', 'c')] + san + defs + job.extra_clang + finc + \
+                      [os.path.join(VERIF, job.harness)] + [os.path.join(REPO, s) for s in nsrcs] + genfiles + [os.path.join(RT, 'native_rt.c'), '-o', exe, '-lm']
                 rc, out, err, to, _ = sh(cmd, timeout=600)
             else:
                 o = os.path.join(d, 'native_rt.o')
                 rc, out, err, to, _ = sh(['gcc', '-O1', '-w', '-c', '-DHARNESS=' + job.entry, os.path.join(RT, 'native_rt.c'), '-o', o] + san, timeout=120)
                 if rc == 0:
                     cmd = ['g++'] + GXX_FLAGS + ['-I' + os.path.join(VERIF, 'harness', 'cpp')] + san + defs + [x for x in job.extra_clang if x.startswith('-D') or x.startswith('-I') or x.startswith('-include')] + \
-                          [os.path.join(VERIF, job.harness)] + [os.path.join(REPO, s) for s in nsrcs] + [o, '-o', exe, '-lpthread', '-lz', '-lm']
+                          [os.path.join(VERIF, job.harness)] + [os.path.join(REPO, s) for s in nsrcs] + [os.path.join(RT, 'native_stubs.cpp')] + ['-x', 'c'] + genfiles + ['-x', 'none', o, '-o', exe, '-lpthread', '-lz', '-lm']
                     rc, out, err, to, _ = sh(cmd, timeout=900)
             if rc != 0:
                 self.builds[key] = None
@@ -388,7 +414,10 @@ class Runner:
 
     def differential(self, job, n):
         """translator validation: same harness, same pseudo-random vectors, ir2c output (gcc) vs real code (g++)"""
-        a = self.gen_native_build(job); b = self.native_build(job, sanitize=False, tag='diff')
+        try:
+            a = self.gen_native_build(job); b = self.native_build(job, sanitize=False, tag='diff')
+        except BuildError as e:
+            return {'job': job.name, 'status': 'build_failed', 'error': str(e)[-1500:]}
         if not a or not b:
             return {'job': job.name, 'status': 'build_failed'}
         ra = sh([a, 'diff', str(n), str(self.seed)], timeout=300); rb = sh([b, 'diff', str(n), str(self.seed)], timeout=300)
@@ -403,7 +432,7 @@ class Runner:
         exe = self.native_build(job, sanitize=True)
         os.makedirs(os.path.dirname(outpath), exist_ok=True)
         meta = {'property': self.prop, 'job': job.descriptor(), 'cdefs': job.cdefs, 'pdefs': job.pdefs, 'native_defs': job.native_defs, 'srcs': job.srcs, 'native_srcs': job.native_srcs,
-                'engine': job.engine, 'harness': job.harness, 'entry': job.entry, 'extra_clang': job.extra_clang, 'vector': [[w, v] for (w, v) in vec]}
+                'engine': job.engine, 'harness': job.harness, 'entry': job.entry, 'extra_clang': job.extra_clang, 'gen_c': job.gen_c, 'force_include': job.force_include, 'vector': [[w, v] for (w, v) in vec]}
         json.dump(meta, open(outpath, 'w'), indent=1)
         if not exe: return 'native_build_failed', ''
         return run_replay_exe(exe, vec, os.path.dirname(outpath))
@@ -487,6 +516,9 @@ def run_property(prop, tier, seed, jobs, meta, diff_jobs=(), diff_n=None):
                 for fp, st, txt, rp in outs:
                     sig = '%s|%s|%s' % (j.family, fp['loc'], fp['description'])
                     rec = {'job': j.name, 'property': fp['property'], 'description': fp['description'], 'loc': fp['loc'], 'replay': st, 'replay_file': rp, 'signature': sig}
+                    if fp.get('class') == 'unwind' and not st.startswith('violation'):
+                        errors.append('%s: unwinding bound too small (the loop terminates natively on the counterexample input): %s at %s' % (j.name, fp['property'], fp['loc']))
+                        continue
                     if st.startswith('violation'):
                         k = next((k for k in known if re.search(k['match'], sig)), None)
                         if k: rec['known'] = k['text']; known_hits.append((k, rec))
